@@ -124,7 +124,7 @@ func (s *Session) Project(names []string) (snap Snapshot) {
 					e.K = "READLINK-" + ErrName(err)
 				}
 
-				e.T = ParsePath(t)
+				e.T = s.abstractPath(t)
 			}
 
 			snap.Post = append(snap.Post, e)
@@ -162,7 +162,7 @@ func (s *Session) Project(names []string) (snap Snapshot) {
 	})
 
 	if wd, err := s.FS.Getwd(); err == nil {
-		snap.Cwd = ParsePath(wd)
+		snap.Cwd = s.abstractPath(wd)
 	} else {
 		snap.Cwd = Path{Parts: []string{"GETWD-" + ErrName(err)}}
 	}
